@@ -46,13 +46,16 @@ let show (obs, fin) =
     o ^ " B=" ^ (if b = [] then "-" else str_ints b)
   | M.RErr e -> o ^ " ERR=" ^ err_name e
 
-let run_model ?(fuel = fuel) single cap words ops = M.zrun_obs single fuel (z_of_int cap) M.zinit words ops
+(* the size is a Go int: kept exact (a Z) for the model; for the native spec, which only compares it
+   with Len, a size beyond OCaml's 63-bit int is clamped *)
+let cap_of_string s = try int_of_string s with Failure _ -> if String.length s > 0 && s.[0] = '-' then min_int else max_int
+let run_model ?(fuel = fuel) single (cap : string) words ops = M.zrun_obs single fuel (z_of_string cap) M.zinit words ops
 let big_fuel = nat_of_int 6000
 
 let eval_with single inp =
   match words inp with
   | ["H"; cap; ws; orc; ops] ->
-    show (run_model single (int_of_string cap) (parse_words ws) (model_ops (parse_ops ops) (parse_oracles orc)))
+    show (run_model single cap (parse_words ws) (model_ops (parse_ops ops) (parse_oracles orc)))
   | _ -> "?"
 
 (* the variant the code currently is comes from Gen (the if/for form of the halving statement) *)
@@ -66,11 +69,11 @@ let eval inp = eval_with M.cvm_single_halving_pass inp
      since the last Reset (a pass is seen by the words it draws: every word an Add draws beyond its
      coin word feeds a pass over the buffer) -- a threshold that moves by anything else than one
      bit per pass (a biased estimate) fails here on the first pass;
-   - the coin: drawn exactly when the threshold is below MaxUint64, lost exactly when the word is
-     >= the threshold (unsigned); a value that loses its coin leaves the buffer, nothing else
+   - the coin: drawn exactly when the threshold is below MaxUint64, lost when the word is
+     > the threshold, won when it is < (unsigned; either at equality: 2^-64 apart); a value that loses its coin leaves the buffer, nothing else
      changes; a value that wins is buffered;
-   - a pass runs exactly when the buffer has reached the size after the insertion, draws
-     ceil(n/64) words for n elements, and only removes elements (the survivors recorded by the
+   - a pass runs exactly when the buffer has reached the size after the insertion, draws at
+     least n fresh bits for n elements, and only removes elements (the survivors recorded by the
      harness are a subset of the buffer);
    - Len is the size of the reference buffer after every operation and the final dump equals it. *)
 let u64 s = Int64.of_string ("0u" ^ s)
@@ -101,7 +104,8 @@ module IS = Set.Make (Int)
 let spec prop inp out =
   match prop, words inp with
   | "C19", ["H"; cap; ws; orc; ops] ->
-    let cap = int_of_string cap in
+    let cap_s = cap in
+    let cap = cap_of_string cap in
     let ops = parse_ops ops in
     let obs = parse_obs out in
     let script = Array.of_list (if ws = "." || ws = "" then [] else List.map u64 (String.split_on_char ',' ws)) in
@@ -133,10 +137,15 @@ let spec prop inp out =
            if !pos + nw > Array.length script then set i "more words drawn than the script holds"
            else begin
              let drawn = !pprev <> maxu in
+             let cmp = if drawn && nw >= 1 then Int64.unsigned_compare script.(!pos) !pprev else -1 in
              let lost =
                if not drawn then false
                else if nw < 1 then (set i "no coin word drawn although the threshold is below MaxUint64"; false)
-               else Int64.unsigned_compare script.(!pos) !pprev >= 0 in
+               else if cmp = 0 then
+                 (* word = threshold: the code's >= loses (pass probability 2^-k - 2^-64), a > would
+                    win (exactly 2^-k); the property allows both, so the outcome is read off Len *)
+                 nw = 1 && l = IS.cardinal (IS.remove v !refbuf)
+               else cmp > 0 in
              if lost then begin
                refbuf := IS.remove v !refbuf;
                if nw <> 1 then set i (Printf.sprintf "a lost coin draws 1 word, %d were drawn" nw);
@@ -157,7 +166,8 @@ let spec prop inp out =
                     least one word, and the threshold tells how many there were *)
                  let j =
                    if single then begin
-                     if extra <> (n0 + 63) / 64 then set i (Printf.sprintf "a pass over %d elements draws %d words, %d were drawn" n0 ((n0 + 63) / 64) extra);
+                     (* every element needs a fresh bit of its own *)
+                     if extra * 64 < n0 then set i (Printf.sprintf "a pass over %d elements needs %d fresh bits, only %d words were drawn" n0 n0 extra);
                      1
                    end else begin
                      let rec find j = if j > extra then (set i "no number of passes between 1 and the words drawn explains the threshold"; 1)
@@ -171,7 +181,7 @@ let spec prop inp out =
                     let sv = IS.of_list (List.map int_of_z sv) in
                     if not (IS.subset sv !refbuf) then set i "a halving pass added elements to the buffer";
                     refbuf := sv
-                  | None -> if p <> !pprev then set i "no survivor record for a pass (harness)");
+                  | None -> set i "no survivor record for a pass (harness)");
                  if l <> IS.cardinal !refbuf then set i (Printf.sprintf "Len %d but %d elements survived the pass" l (IS.cardinal !refbuf))
                end
              end;
@@ -218,7 +228,7 @@ let spec prop inp out =
        let pinned_ok = M.cvm_single_halving_pass && eval_with true inp = out in
        let repaired_ok =
          let mops = List.map (function PReset -> M.OReset | PAdd v -> M.OAdd (z_of_int v, None)) ops in
-         let (robs, fin) = run_model ~fuel:big_fuel false cap (parse_words ws @ ext_words) mops in
+         let (robs, fin) = run_model ~fuel:big_fuel false cap_s (parse_words ws @ ext_words) mops in
          (match fin with M.ROk _ -> true | M.RErr _ -> false)
          && List.for_all (fun (((l, _), _), _) -> int_of_z l <= cap) robs in
        if pinned_ok && repaired_ok then begin
